@@ -1,5 +1,5 @@
 SPECIFICATION Spec
-CONSTANT DisableOnError = "never"
+CONSTANT DisableOnError = "first"
 INVARIANT StoreIsCurrent
 INVARIANT NothingSavedIfStartFailed
 INVARIANT StopSavesAll
